@@ -395,12 +395,68 @@ def _known_const(stmts, local, depth=0):
     return None
 
 
+def _eval_stmts(stmts, env, F=None):
+    """constant propagation over a straight-line statement list: env maps a local to an int it is known to hold; locals assigned
+    anything else become unknown. Only whole-local assignments of constants, moves, `!x`, `-x` and comparisons with constants count."""
+    env = dict(env)
+    for st in stmts:
+        if st["k"] != "assign":
+            continue
+        dl = st["dst"]["l"]
+        if st["dst"].get("p"):
+            env.pop(dl, None)
+            continue
+        rv = st["rv"]
+        val = None
+
+        def opv(o):
+            if o.get("k") == "const" and isinstance(o.get("value"), int) and not isinstance(o.get("value"), bool):
+                return o["value"]
+            if o.get("k") in ("move", "copy") and not o["p"].get("p"):
+                return env.get(o["p"]["l"])
+            return None
+        if rv["k"] == "use":
+            val = opv(rv["a"])
+        elif rv["k"] == "unop" and rv.get("op") == "Not":
+            x = opv(rv["a"])
+            ty = rv["a"].get("ty") or (rv["a"].get("p") or {}).get("ty")
+            if ty is None and F is not None and rv["a"].get("k") in ("move", "copy"):
+                ty = F["locals"][rv["a"]["p"]["l"]].get("ty")
+            if x in (0, 1) and ty == "bool":
+                val = 1 - x
+        elif rv["k"] == "binop" and rv.get("op") in ("Eq", "Ne"):
+            x, y = opv(rv["a"]), opv(rv["b"])
+            if x is not None and y is not None:
+                val = int((x == y) == (rv["op"] == "Eq"))
+        if val is None:
+            env.pop(dl, None)
+        else:
+            env[dl] = val
+    return env
+
+
+def _simple_forward(B):
+    """a block that only computes on locals (constants, moves, !, ==) and goes on: its effect can be evaluated"""
+    if B.get("cleanup") or B["term"]["k"] != "goto":
+        return False
+    for st in B["stmts"]:
+        if st["k"] in ("storage_live", "storage_dead", "nop", "fake_read"):
+            continue
+        if st["k"] != "assign" or st["dst"].get("p") or st["rv"]["k"] not in ("use", "unop", "binop"):
+            return False
+        ops = [st["rv"].get("a"), st["rv"].get("b")]
+        if any(o is not None and o.get("k") in ("move", "copy") and o["p"].get("p") for o in ops):
+            return False
+    return True
+
+
 def thread_consts(F):
-    """Jump threading for flags: `let hit = matches!(..); if hit { .. }` assigns a constant to a local on every way into a join and
-    then branches on it. The branching block is cloned per predecessor that has just assigned a constant and the clone jumps straight
-    to the arm for that constant (path duplication: sound), so the tests that decided the flag dominate the arm again."""
+    """Jump threading for flags: `let hit = matches!(..); if !hit { .. }` assigns a constant to a local on every way into a join,
+    possibly negates or compares it, and then branches on it. The branching block is cloned per predecessor chain on which the
+    branch value is a known constant and the clone jumps straight to the arm for that constant (path duplication: sound), so the
+    tests that decided the flag dominate the arm again."""
     changed = False
-    for _ in range(3):
+    for _ in range(4):
         preds = {}
         for b in F["blocks"]:
             t = b["term"]
@@ -409,39 +465,36 @@ def thread_consts(F):
         did = False
         for J in list(F["blocks"]):
             t = J["term"]
-            if t["k"] != "switch" or J.get("cleanup") or t["discr"].get("k") not in ("move", "copy") or t["discr"]["p"].get("p") or t.get("threaded"):
+            if t["k"] != "switch" or J.get("cleanup") or t["discr"].get("k") not in ("move", "copy") or t["discr"]["p"].get("p"):
                 continue
-            src = t["discr"]["p"]["l"]
-            moves = {}
-            ok = True
-            for st in J["stmts"]:
-                rv = st.get("rv", {})
-                if st["k"] == "assign" and not st["dst"].get("p") and rv.get("k") == "use" and rv["a"].get("k") in ("move", "copy") and not rv["a"]["p"].get("p"):
-                    moves[st["dst"]["l"]] = rv["a"]["p"]["l"]
-                elif st["k"] in ("storage_live", "storage_dead", "nop", "fake_read"):
+            if any(st["k"] == "assign" and (st["dst"].get("p") or st["rv"]["k"] not in ("use", "unop", "binop")) for st in J["stmts"]):
+                continue
+            d = t["discr"]["p"]["l"]
+            # chains P -> (simple forwarding blocks)* -> J
+            work = [(pid, []) for pid in preds.get(J["id"], [])]
+            seen = set()
+            while work:
+                pid, tail = work.pop()
+                if (pid, len(tail)) in seen or len(tail) > 3:
                     continue
-                else:
-                    ok = False
-                    break
-            if not ok:
-                continue
-            n = 0
-            while src in moves and n < 4:
-                src = moves[src]
-                n += 1
-            for P, extra, loc in _sources(F, preds, J["id"], src):
+                seen.add((pid, len(tail)))
+                P = F["blocks"][pid]
                 if P["term"]["k"] != "goto":
                     continue
-                v = _known_const(P["stmts"], loc)
-                if v is None:
-                    continue
-                hit = [tg for val, tg in t["targets"] if val == v]
-                tgt = hit[0] if hit else t["otherwise"]
-                clone = {"id": len(F["blocks"]), "stmts": copy.deepcopy(extra) + copy.deepcopy(J["stmts"]), "term": {"k": "goto", "t": tgt, "sp": t.get("sp"), "threaded_from": J["id"]}}
-                F["blocks"].append(clone)
-                P["term"] = dict(P["term"])
-                P["term"]["t"] = clone["id"]
-                did = changed = True
+                stmts_tail = [st for q in tail for st in F["blocks"][q]["stmts"]]
+                env = _eval_stmts(P["stmts"] + stmts_tail + J["stmts"], {}, F)
+                v = env.get(d)
+                if v is not None:
+                    hit = [tg for val, tg in t["targets"] if val == v]
+                    tgt = hit[0] if hit else t["otherwise"]
+                    clone = {"id": len(F["blocks"]), "stmts": copy.deepcopy(stmts_tail) + copy.deepcopy(J["stmts"]), "term": {"k": "goto", "t": tgt, "sp": t.get("sp"), "threaded_from": J["id"]}}
+                    F["blocks"].append(clone)
+                    P["term"] = dict(P["term"])
+                    P["term"]["t"] = clone["id"]
+                    did = changed = True
+                elif _simple_forward(P):
+                    for q in preds.get(pid, []):
+                        work.append((q, [pid] + tail))
         if not did:
             break
     return changed
@@ -451,7 +504,11 @@ def _changed_since_baseline(p, f):
     """the function's body differs from the pinned tree's (by block count, callee set or fingerprint), or it is new"""
     base = shapes().get("fns", {}).get(p)
     if base is None:
-        return "{closure" not in p and f.get("kind") != "Closure"
+        if "{closure" in p or f.get("kind") == "Closure":
+            # closures are not in the inventory: one that calls a function the pinned tree does not have was rewritten
+            kn = known() or set()
+            return any(b["term"]["k"] == "call" and (b["term"].get("callee") or "").split("::")[0] in ("rusl", "tiny_std", "tiny_start", "tiny_cli") and b["term"]["callee"] not in kn for b in f["blocks"])
+        return True
     callees = sorted({(b["term"].get("callee") or "?") for b in f["blocks"] if b["term"]["k"] == "call"})
     return base.get("nblocks") != len(f["blocks"]) or base.get("callees") != callees or base.get("fp") != fingerprint(f)
 
